@@ -23,7 +23,7 @@ NOT_COVERED = [               "input errors (MemcacheIllegalInputError before an
 BUDGET = {"quick": 30, "thorough": 120}
 FILTER_BY_PROPERTY = True
 REPLAY_UNDECIDED = True
-DEPENDS = ["C13"]      # _safely_run_func's contract: nothing escapes with ignore_exc
+DEPENDS = ["C13", "C01"]      # _safely_run_func's contract: nothing escapes with ignore_exc
 
 
 def build(E, tier):
